@@ -178,7 +178,8 @@ def k1_compare(run, sc, gen, mclasses, label):
         cq = parse_classes(os.path.join(d, "custom_queries.py"), True)
         cm = parse_classes(os.path.join(d, "custom_mutations.py"), True) if sc["mutation"] else {}
     except (K1Error, OSError, SyntaxError) as e:
-        run.broken("K1 parse of generated builder modules", f"{label}: {e}")
+        if _budget(run, "k1"):
+            run.broken("K1 parse of generated builder modules", f"{label}: {e}")
         return None
     base_src = open(os.path.join(REPO, "ariadne_codegen/client_generators/dependencies/base_operation.py")).read()
     if open(os.path.join(d, "base_operation.py")).read().strip() != base_src.strip():
@@ -223,7 +224,9 @@ def k1_compare(run, sc, gen, mclasses, label):
                     break
             else:
                 problems.append(f"{cname}: {len(gm)} generated members vs {len(mm)} in the model")
-    for p in problems[:5]:
+    for p in problems[:2]:
+        if not _budget(run, "k1"):
+            break
         run.violation(f"K1 {label}: {p}", {"stage": "K1", "scenario": label, "problem": p, "schema": G.sdl(sc),
                                            "config": sc["conf"]}, found_input=False)
     return set(cf) | set(ctf) | roots | {"GraphQLField"}, bool(problems)
@@ -393,6 +396,14 @@ def collector_schema():
     return sc
 
 
+def _budget(run, kind, limit=5):
+    """correspondence-only reports (no concrete failing input) are capped per kind so that the
+    violations WITH a failing input are always among the lines printed; totals go to the evidence"""
+    b = run.extra.setdefault("reports_" + kind, 0)
+    run.extra["reports_" + kind] = b + 1
+    return b < limit
+
+
 GUARD_CLASSES = ["F15-shared-mutation", "F15-python-name", "F15-list-wrapper", "F15-serialize-none", "F15-deep-vars"]
 
 
@@ -439,8 +450,14 @@ def _run(ctx, run, rng, root, n_rand, hist_per):
         k1 = k1_compare(run, sc, gen, mc[1], label)
         run.count()
         if k1 is None:
-            continue
-        present, _bad = k1
+            # K1 is broken (reported above); K3 still runs so that the search can tell whether the
+            # property itself fails on the changed tree
+            present = ({n + ("Fields" if t["kind"] == "o" else "Interface") for n in G.collected(sc)
+                        for t in sc["types"] if t["name"] == n}
+                       | {t["name"] + "Union" for t in sc["types"] if t["kind"] == "u"}
+                       | {t["name"] + "GraphQLField" for t in sc["types"]} | {"Query", "Mutation", "GraphQLField"})
+        else:
+            present, _bad = k1
         jobs.append(prepare(ctx, rng, label, sc, gen, w, mc[1], present, hist_per))
     run.extra["scenarios"] = len(scen)
     # model predictions
@@ -567,8 +584,10 @@ def judge(ctx, run, j, o):
                     same = "".join(mtext.split()) == "".join(r["query"].split())
             if not same or r["variables"] != mvars or r.get("operationName") != name:
                 agree = False
-                run.violation(f"K3 {label}: request differs from the model's prediction",
-                              {**replay, "impl": r, "model_query": mtext, "model_variables": mvars}, found_input=False)
+                run.extra["k3_disagreements"] = run.extra.get("k3_disagreements", 0) + 1
+                if _budget(run, "k3"):
+                    run.violation(f"K3 {label}: request differs from the model's prediction",
+                                  {**replay, "impl": r, "model_query": mtext, "model_variables": mvars}, found_input=False)
             # ---- K3b: the property oracle on the implementation's request ----
             if model.is_error(idl):
                 run.dist("outcome", "ideal-undefined")
@@ -633,7 +652,8 @@ def judge(ctx, run, j, o):
             rep = {**replay, "impl": r, "ideal_query": itext, "ideal_variables": ivars, "problems": problems,
                    "guards": dict(zip(["shared", "names", "types", "ser", "depth", "nodup"], [shared_ok] + guards[1:] + [nodup == "t"]))}
             if not classes:
-                run.violation(what, rep)
+                if _budget(run, "property", 8):
+                    run.violation(what, rep)
             else:
                 for c in classes:
                     run.finding(c, what, rep)
